@@ -1,6 +1,7 @@
 package checks
 
 import (
+	"bytes"
 	"fmt"
 	"sort"
 	"strings"
@@ -145,6 +146,57 @@ func C16(t Tier) int {
 		})
 		perDom[d.Name] = n
 	}
+	// what is stored is what was validated: every reference-accepted UpdateDID (<= 2 non-default classes), properly proven by the
+	// current key, is delivered to a chain whose DID already carries every optional section; the stored document must be
+	// byte-identical to the submitted one and satisfy the reference validator itself
+	storedVerbatim := 0
+	{
+		k := e.DidKey
+		wr := populated(e)
+		rich := k.doc("D5", e.Did)
+		rich.AssertionMethods = []didtypes.VerificationRelationship{didtypes.NewVerificationRelationship(k.vmID(e.Did, 1))}
+		rich.KeyAgreements = []didtypes.VerificationRelationship{didtypes.NewVerificationRelationship(k.vmID(e.Did, 1))}
+		if res := wr.Send(world.TxSpec{Msgs: []sdk.Msg{&didtypes.MsgUpdateDIDRequest{Did: e.Did, Document: rich, VerificationMethodId: k.vmID(e.Did, 1), Signature: k.sign(rich, 0, 1), FromAddress: e.A.Bech}}, Signers: []*world.Account{e.A}, Fee: aolFee}); res.Code != 0 {
+			panic("C16: cannot install the rich document: " + res.Log)
+		}
+		for _, d := range doms {
+			if d.Name != "did.MsgUpdateDIDRequest" {
+				continue
+			}
+			d.product(2, func(m0 sdk.Msg, labels []string, odd int) {
+				m, ok := roundTrip(d, m0)
+				if !ok || !d.Ref(m) {
+					return
+				}
+				u := m.(*didtypes.MsgUpdateDIDRequest)
+				if u.Did != e.Did || u.Document == nil {
+					return
+				}
+				u.VerificationMethodId = k.vmID(e.Did, 1)
+				u.Signature = k.sign(u.Document, 1, 1)
+				want, _ := u.Document.Marshal()
+				discard := wr.Fork()
+				res := wr.Send(world.TxSpec{Msgs: []sdk.Msg{u}, Signers: d.Signers(e), Fee: aolFee})
+				var got []byte
+				var stored *didtypes.DIDDocument
+				if res.Code == 0 {
+					dws := wr.App.DidKeeper.GetDIDDocument(wr.Ctx(), e.Did)
+					stored = dws.Document
+					got, _ = stored.Marshal()
+				}
+				discard()
+				if res.Code != 0 {
+					return
+				}
+				storedVerbatim++
+				if !bytes.Equal(got, want) {
+					mm = append(mm, mismatch{d.Name, "stored-differs-from-validated", labels, odd, "an accepted update stored a document that is not the submitted (validated) one"})
+				} else if !refDoc(stored, e.Did) {
+					mm = append(mm, mismatch{d.Name, "stored-out-of-limits", labels, odd, "an accepted update stored a document outside the published limits"})
+				}
+			})
+		}
+	}
 	// charset, byte by byte: every single byte value as a one-character name and as the second character after "a", for the
 	// topic name (three message types) and the moniker: accepted <=> the byte is in the published character set
 	charsetEvals := 0
@@ -195,6 +247,7 @@ func C16(t Tier) int {
 	run.Coverage["accepted_by_validate_basic"] = accepted
 	run.Coverage["delivered_rejected_messages"] = delivered
 	run.Coverage["undecodable_skipped"] = undecodable
+	run.Coverage["accepted_updates_compared_with_store"] = storedVerbatim
 	run.Coverage["per_type_inputs"] = perDom
 	run.Coverage["mismatches_total"] = len(mm)
 	run.Assumptions = []string{
